@@ -225,3 +225,33 @@ package semantic
 //@   modifies parser.Type.Category, parser.Type.IsTypedef, parser.Type.Reference, parser.Include.Used, r.typedefs, parser.ConstValue.Extra
 //@   loop 1 invariant err == nil && wfTypes() && wfResolver(r) && tdRefsOK() && defaultsBound(r.ast, f.Arguments, $i)
 //@   loop 2 invariant err == nil && wfTypes() && wfResolver(r) && tdRefsOK() && defaultsBound(r.ast, f.Arguments, len(f.Arguments)) && defaultsBound(r.ast, f.Throws, $i)
+
+// ---- global names (C04): CheckGlobals returns nil only if the names of typedefs, constants, struct-likes (structs,
+// unions, exceptions) and services of the file are pairwise distinct (enums are covered by AddName) ----
+//@ pure func nSL(t *parser.Thrift) int { return len(t.Structs) + len(t.Unions) + len(t.Exceptions) }
+//@ pure func slAt(t *parser.Thrift, k int) *parser.StructLike { return ite(k < len(t.Structs), t.Structs[k], ite(k < len(t.Structs) + len(t.Unions), t.Unions[k-len(t.Structs)], t.Exceptions[k-len(t.Structs)-len(t.Unions)])) }
+//@ pure func dT(t *parser.Thrift, n int) bool { return forall a, b int :: 0 <= a && a < b && b < n ==> t.Typedefs[a].Alias != t.Typedefs[b].Alias }
+//@ pure func dC(t *parser.Thrift, n int) bool { return forall a, b int :: 0 <= a && a < b && b < n ==> t.Constants[a].Name != t.Constants[b].Name }
+//@ pure func dS(t *parser.Thrift, n int) bool { return forall a, b int :: 0 <= a && a < b && b < n ==> slAt(t, a).Name != slAt(t, b).Name }
+//@ pure func dV(t *parser.Thrift, n int) bool { return forall a, b int :: 0 <= a && a < b && b < n ==> t.Services[a].Name != t.Services[b].Name }
+//@ pure func xTC(t *parser.Thrift, n int, m int) bool { return forall a, b int :: 0 <= a && a < n && 0 <= b && b < m ==> t.Typedefs[a].Alias != t.Constants[b].Name }
+//@ pure func xTS(t *parser.Thrift, n int, m int) bool { return forall a, b int :: 0 <= a && a < n && 0 <= b && b < m ==> t.Typedefs[a].Alias != slAt(t, b).Name }
+//@ pure func xTV(t *parser.Thrift, n int, m int) bool { return forall a, b int :: 0 <= a && a < n && 0 <= b && b < m ==> t.Typedefs[a].Alias != t.Services[b].Name }
+//@ pure func xCS(t *parser.Thrift, n int, m int) bool { return forall a, b int :: 0 <= a && a < n && 0 <= b && b < m ==> t.Constants[a].Name != slAt(t, b).Name }
+//@ pure func xCV(t *parser.Thrift, n int, m int) bool { return forall a, b int :: 0 <= a && a < n && 0 <= b && b < m ==> t.Constants[a].Name != t.Services[b].Name }
+//@ pure func xSV(t *parser.Thrift, n int, m int) bool { return forall a, b int :: 0 <= a && a < n && 0 <= b && b < m ==> slAt(t, a).Name != t.Services[b].Name }
+//@ pure func inG(t *parser.Thrift, s string, n1 int, n2 int, n3 int, n4 int) bool { return (exists k int :: 0 <= k && k < n1 && t.Typedefs[k].Alias == s) || (exists k int :: 0 <= k && k < n2 && t.Constants[k].Name == s) || (exists k int :: 0 <= k && k < n3 && slAt(t, k).Name == s) || (exists k int :: 0 <= k && k < n4 && t.Services[k].Name == s) }
+//@ pure func mapOK(g map[string]bool, t *parser.Thrift, n1 int, n2 int, n3 int, n4 int) bool { return (forall s string :: g[s] ==> inG(t, s, n1, n2, n3, n4)) && (forall k int :: 0 <= k && k < n1 ==> g[t.Typedefs[k].Alias]) && (forall k int :: 0 <= k && k < n2 ==> g[t.Constants[k].Name]) && (forall k int :: 0 <= k && k < n3 ==> g[slAt(t, k).Name]) && (forall k int :: 0 <= k && k < n4 ==> g[t.Services[k].Name]) }
+
+//@ func (c *checker) CheckGlobals(t *parser.Thrift) (warns []string, err error)
+//@   requires wfThrift(t) && forall i int :: 0 <= i && i < len(t.Services) ==> t.Services[i] != nil
+//@   ensures err == nil ==> dT(t, len(t.Typedefs)) && dC(t, len(t.Constants)) && dS(t, nSL(t)) && dV(t, len(t.Services))
+//@   ensures err == nil ==> xTC(t, len(t.Typedefs), len(t.Constants)) && xTS(t, len(t.Typedefs), nSL(t)) && xTV(t, len(t.Typedefs), len(t.Services))
+//@   ensures err == nil ==> xCS(t, len(t.Constants), nSL(t)) && xCV(t, len(t.Constants), len(t.Services)) && xSV(t, nSL(t), len(t.Services))
+//@   loop 1 invariant err == nil && globals != nil && mapOK(globals, t, $i, 0, 0, 0) && dT(t, $i)
+//@   loop 2 invariant err == nil && globals != nil && mapOK(globals, t, len(t.Typedefs), $i, 0, 0) && dT(t, len(t.Typedefs)) && dC(t, $i) && xTC(t, len(t.Typedefs), $i)
+//@   loop 3 invariant err == nil && globals != nil && len($xs) == nSL(t) && (forall k int :: 0 <= k && k < len($xs) ==> $xs[k] == slAt(t, k)) && mapOK(globals, t, len(t.Typedefs), len(t.Constants), $i, 0)
+//@   loop 3 invariant dT(t, len(t.Typedefs)) && dC(t, len(t.Constants)) && xTC(t, len(t.Typedefs), len(t.Constants)) && dS(t, $i) && xTS(t, len(t.Typedefs), $i) && xCS(t, len(t.Constants), $i)
+//@   loop 4 invariant err == nil && globals != nil && mapOK(globals, t, len(t.Typedefs), len(t.Constants), nSL(t), $i)
+//@   loop 4 invariant dT(t, len(t.Typedefs)) && dC(t, len(t.Constants)) && xTC(t, len(t.Typedefs), len(t.Constants)) && dS(t, nSL(t)) && xTS(t, len(t.Typedefs), nSL(t)) && xCS(t, len(t.Constants), nSL(t))
+//@   loop 4 invariant dV(t, $i) && xTV(t, len(t.Typedefs), $i) && xCV(t, len(t.Constants), $i) && xSV(t, nSL(t), $i)
